@@ -12,7 +12,19 @@ import BGV
 #print axioms BGV.C01_remove_absent_noop
 #print axioms BGV.C01_resize_keeps
 
+-- C02
+#print axioms BGV.C02_inv_reachable
+#print axioms BGV.C02_refines
+#print axioms BGV.C02_symmetric
+#print axioms BGV.C02_hasEdge
+#print axioms BGV.C02_neighbours
+#print axioms BGV.C02_edgeNumber
+#print axioms BGV.C02_getDegree
+#print axioms BGV.C02_removeEdge_exact
+
 -- C03
+#print axioms BGV.C03_und_entry_iff_edge
+#print axioms BGV.C03_und_getEdgeLabel
 #print axioms BGV.C03_entry_iff_edge
 #print axioms BGV.C03_getEdgeLabel
 #print axioms BGV.C03_hasEdgeL
